@@ -51,17 +51,20 @@ impl Encode for SocketAddr {
 //@tags C01 C02 C14
 //@prefix
     #[verifier::spinoff_prover]
-//@after "buffer[4..8].clone_from_slice(&ip.octets());"
+//@before "Ok(length)"
+    // (stated about the finished buffer, so that the order of the four writes does not matter)
     proof {
         assert(buffer@.subrange(2, 4) == be16_seq(self.port as int));
-        assert(buffer@.subrange(4, 8) =~= ip.o@);
-        assert(buffer@.subrange(0, 8) =~= seq![0u8, 1u8] + buffer@.subrange(2, 4) + buffer@.subrange(4, 8));
-    }
-//@after "buffer[4..20].clone_from_slice(&ip.octets());"
-    proof {
-        assert(buffer@.subrange(2, 4) == be16_seq(self.port as int));
-        assert(buffer@.subrange(4, 20) =~= ip.o@);
-        assert(buffer@.subrange(0, 20) =~= seq![0u8, 2u8] + buffer@.subrange(2, 4) + buffer@.subrange(4, 20));
+        match self.ip {
+            IpAddr::V4(a) => {
+                assert(buffer@.subrange(4, 8) =~= a.o@);
+                assert(buffer@.subrange(0, 8) =~= seq![0u8, 1u8] + buffer@.subrange(2, 4) + buffer@.subrange(4, 8));
+            }
+            IpAddr::V6(a) => {
+                assert(buffer@.subrange(4, 20) =~= a.o@);
+                assert(buffer@.subrange(0, 20) =~= seq![0u8, 2u8] + buffer@.subrange(2, 4) + buffer@.subrange(4, 20));
+            }
+        }
     }
 //@spec
     ensures final(buffer)@.len() == old(buffer)@.len(),
